@@ -13,6 +13,7 @@ import (
 	"math/rand/v2"
 	"runtime"
 	"sort"
+	"strconv"
 	"strings"
 	"syscall"
 	"time"
@@ -37,16 +38,20 @@ func init() {
 			"and spelled at random (implicit/explicit root, decimal/hex/octal and negative integers, both quote styles, simple, 1-3 digit octal incl. leading zeros, 1-2 digit \\x/\\X in either case, \\u, \\U escapes, escapes followed by literal digits, raw UTF-8; string-keyed maps hold keys together with what a short-cutting scanner would read instead), evaluated on the message it was drawn from, a fresh random message, the empty message and a copy with the addressed element deleted; " +
 			"(neighbour) the same with one type-breaking edit of the structure (index dropped/added, literal of the wrong kind or out of the key range, map-entry field, unknown/foreign field, negative/huge index); " +
 			"(soup) token soups, random bytes, mutated valid texts and long inputs - whatever parses is evaluated and compared with a typed walk of the returned protopath; " +
-			"(render) InspectPayload/InspectSignature/InspectMask, MaskOptions.Mask and the CLI 'inspect payload|signature|mask' (in-process, in-memory IO) for bin/hex/base64/auto(terminal and not) over byte strings of boundary lengths, plus sequences of 3-6 such calls on ONE *Inspect (in one context) or *MaskOptions whose writer the caller swaps between terminal and non-terminal (every step judged like a single call; the options' Form must be unchanged afterwards). " +
+			"(render) InspectPayload/InspectSignature/InspectMask, MaskOptions.Mask and the CLI 'inspect payload|signature|mask' (in-process, in-memory IO) for bin/hex/base64/auto(terminal and not) over byte strings of boundary lengths, plus sequences of 3-6 such calls on ONE *Inspect (in one context) or *MaskOptions whose writer the caller swaps between terminal and non-terminal (every step judged like a single call; the options' Form must be unchanged afterwards); " +
+			"(held, case numbers after the original ones) 2-6 paths (same root type, now and then the same text twice or a path of another root type in between) are ALL parsed first - one after the other, or by goroutines started together - and only then evaluated (forwards, backwards, or everything held so far after every further parse), each on the message it was drawn from, another random one and the empty one, judged by the walk of its own structured path; " +
+			"(os-files, likewise) sequences of 2-6 'inspect payload|signature|mask FILE --out=DEST --bytesform=bin|hex|base64|auto' runs through the CLI's real file backend cmd.OSIO in a private temporary directory, over 2-3 endorsement files and 1-2 destinations that are reused between the steps and are absent / empty / hold left-over bytes before the first; after every step DEST is read back with os.ReadFile and judged like every other rendering. " +
 			"Oracle: the reference walk (pathref.Walk) says present(value)/absent/unwalkable; a parse error is always allowed (counted); after a successful parse the evaluation must return exactly the walked value (every intermediate value too) when present and an error otherwise; no panic, no call that fails to return (200 s CPU backstop), allocation <= 64 MiB + 4 KiB/byte per call; " +
 			"bin output equals the field bytes, hex/base64 output decodes (encoding/hex, RFC 4648 standard alphabet) to exactly the field bytes. " +
-			"non-trivial = a path that parsed and was evaluated (or a rendering that was produced); distinct = (family, root type, step-kind shape with map key kinds, kind of the addressed value, expected status, outcome) and (entry, form, length class) cells",
+			"non-trivial = a path that parsed and was evaluated (or a rendering that was produced); distinct = (family, root type, step-kind shape with map key kinds, kind of the addressed value, expected status, outcome) and (entry, form, length class) cells; held: (mode, root, number of paths) plus the evaluation cells; os-files: (subcommand, form, length of the exact rendering relative to what the destination held)",
 		Assumptions: []string{
 			"a parse error is never judged (C19: 'parsing either fails with an error or ...'); floors require that every spelling feature and every map key kind was seen to parse and evaluate to the walked value, so a parser that rejects a whole class makes the run inconclusive instead of passing",
 			"an unset singular message field is not absent (protobuf reflection reads it as the empty message); only missing list indices and map keys are absent",
 			"string escapes follow the grammar scan.go documents and its tests pin down: octal = 1 to 3 digits, as many as are there; \\x/\\X = 1 or 2 hex digits, as many as are there; every numeric escape composes one rune (so \\377 is U+00FF; generated up to 0xff only); each generated literal is first read back by an independent unescaper (pathref.Unescape) and replaced by a plain \\U spelling if that disagrees (counted as GENERATOR-FALLBACK, expected 0)",
 			"hex output is accepted in either case, base64 must use the standard alphabet with padding (README: 'encoded as hex or base64'); BytesHexGuidify is not reachable from --bytesform and is not judged",
 			"C19 states no time bound: CPU time per call is evidence (maxima), only a 200 s backstop decides (non-termination); allocation is bounded per call as in C07; the worker runs under ulimit -v 6 GiB so that runaway allocation ends the child, not the host",
+			"a parsed path is a value the caller may hold: C19's 'evaluated on any message of the root type' is judged whenever the caller evaluates it, also after further ParsePath calls (sequential or concurrent); only evaluation results are judged, never the identity or printed form of the held path",
+			"what 'inspect ... --out=DEST' leaves in DEST is the rendering an external tool re-verifies (cmd.IO.Create: 'creates or opens and truncates'): with the real file backend the file content after a successful run must be exactly the rendering, whatever DEST held before; file modes, timestamps and the like are not judged; if the monitor cannot set up its temporary directory the case is counted as environment-unavailable and a floor requires that sequences ran",
 			"CLI paths contain no comma or quote (cobra's --path is a CSV string slice); the CLI is driven in-process through the verif backend hook with in-memory IO",
 		},
 		ShardsQuick: 8, ShardsThor: 16, TimeoutS: 1500, TimeoutThor: 3600, UlimitVKB: 6 << 20, Run: run,
@@ -86,6 +91,9 @@ type checker struct {
 	neighbourEv  int
 	notedRejects int
 	reusedSwitch int
+	heldOK       map[string]int
+	osSteps      int
+	osOverLonger int
 }
 
 func threadUserCPU() time.Duration {
@@ -141,7 +149,7 @@ func (k *checker) judge(i int, entry, gen, text, msgName string, msg protoreflec
 	}
 	if err != nil {
 		if exp.Status == pathref.Present {
-			viol("error-on-present-element", "every step addresses an existing element (walked value: %s) but evaluation failed: %v", pathref.Show(exp.Last()), err)
+			viol("error-on-present-element", "every step addresses an existing element (walked value: %s) but evaluation failed: %s", pathref.Show(exp.Last()), errText(err))
 			return "ERROR-ON-PRESENT"
 		}
 		return exp.Status.String() + "-error"
@@ -210,6 +218,15 @@ func (k *checker) evalText(i int, family, gen, text string, rt rootType, msgs []
 		}
 		return false
 	}
+	k.evalParsed(i, family, gen, text, rt, pp, msgs, ref, onOK)
+	return true
+}
+
+// evalParsed runs PathValues with an already parsed path on every message and judges each result
+// against ref(msg). It is what evalText does after a successful parse; the held-path family calls
+// it on its own, after other ParsePath calls have been made.
+func (k *checker) evalParsed(i int, family, gen, text string, rt rootType, pp protopath.Path, msgs []namedMsg, ref func(protoreflect.Message, protopath.Path) pathref.Walked, onOK func(msgName string, exp pathref.Walked)) {
+	c := k.c
 	for _, nm := range msgs {
 		exp := ref(nm.m, pp)
 		var vs protopath.Values
@@ -234,7 +251,6 @@ func (k *checker) evalText(i int, family, gen, text string, rt rootType, msgs []
 			k.absentErr++
 		}
 	}
-	return true
 }
 
 func cut(s string) string {
@@ -250,7 +266,17 @@ func errTail(err error) string {
 	if j := strings.LastIndex(s, "\": "); j >= 0 && j+3 < len(s) {
 		s = s[j+3:]
 	}
-	return s
+	return printable(s)
+}
+
+// errText is the first line of an error with everything unprintable escaped: the repository's
+// errors quote map keys and path texts as they are, control bytes included, and a verdict line
+// holding a NUL byte is taken for binary data by the tools that read the check's output.
+func errText(err error) string { return printable(firstLine(err.Error())) }
+
+func printable(s string) string {
+	q := strconv.QuoteToGraphic(s)
+	return q[1 : len(q)-1]
 }
 
 func firstLine(s string) string {
@@ -675,7 +701,7 @@ func (k *checker) soup(i int, r *rand.Rand, rt rootType) {
 }
 
 func run(c *core.Ctx) {
-	k := &checker{c: c, okKeyKind: map[string]bool{}, okSpelling: map[string]bool{}, okRoot: map[string]bool{}, renderOK: map[string]bool{}}
+	k := &checker{c: c, okKeyKind: map[string]bool{}, okSpelling: map[string]bool{}, okRoot: map[string]bool{}, renderOK: map[string]bool{}, heldOK: map[string]int{}}
 	n := c.N(10000, 300000)
 	for i := 0; i < n; i++ {
 		if !c.Mine(i) {
@@ -707,6 +733,24 @@ func run(c *core.Ctx) {
 			k.render(i, r)
 		}
 	}
+	// Families added later get case numbers after the original ones, so that every original case
+	// stays the case it was (same number, same PRNG stream).
+	nHeld, nOS := c.N(700, 14000), c.N(250, 4000)
+	for i := n; i < n+nHeld+nOS; i++ {
+		if !c.Mine(i) {
+			continue
+		}
+		if r := c.Rand(i); i < n+nHeld {
+			k.held(i, r)
+		} else {
+			k.osFiles(i, r)
+		}
+	}
+	for _, m := range heldModes {
+		c.Floor("held-path-value-equal-after-later-parses/"+m, k.heldOK[m] > 0)
+	}
+	c.Floor("os-files-steps-judged", k.osSteps > 0)
+	c.Floor("os-files-rendering-onto-longer-content", k.osOverLonger > 0)
 	for _, kk := range wantKeyKinds {
 		c.Floor("value-equal-through-key-kind/"+kk, k.okKeyKind[kk])
 	}
